@@ -8,6 +8,7 @@ and revision tables of any length.
 import Lemmas.Pending
 import Lemmas.ExecRevs
 import Atlas.SetVersion
+import Lemmas.Clean
 import Props.C09
 
 namespace Props.C11
@@ -24,6 +25,92 @@ theorem dirty_requires_flag (cfg : Cfg) (all : List MFile) (hc : cfg.clean = fal
     (hd : cfg.allowDirty = false) (hb : cfg.baseline = "") :
     (pending cfg all []).out = .error .notClean ∧ (pending cfg all []).baselineWrite = none := by
   simp [pending, firstRun, hc, hd, hb]
+
+/-! ### what "not clean" is: the drivers' `CheckClean` (model `Atlas.Clean`) -/
+
+section Gate
+open Atlas.Clean
+
+/-- **gate_mysql / gate_postgres / gate_sqlite / gate_bound**: the first-run gate of each driver accepts a
+database exactly when it holds nothing but - possibly - the revision table in its own place (PostgreSQL: and
+the empty default schema `public`): every other schema, ALSO AN EMPTY ONE, and every other table makes the
+database "not clean". -/
+theorem gate_mysql (r : List Sch) (revS revT : String) (hn : (r.map (·.name)).Nodup) :
+    mysqlRealmClean r revS revT = true ↔ ∀ s ∈ r, s.name = revS ∧ OnlyRev s.tables revT :=
+  mysqlRealmClean_iff r revS revT hn
+
+theorem gate_postgres (r : List Sch) (revS revT : String) :
+    pgRealmClean r revS revT = true ↔
+      ∀ s ∈ r, (s.tables = [] ∧ s.name = "public") ∨ (s.name = revS ∧ s.tables = [revT]) :=
+  pgRealmClean_iff r revS revT
+
+theorem gate_sqlite (r : List Sch) (revT : String) (hn : (r.map (·.name)).Nodup) :
+    sqliteClean r revT = true ↔ ∀ s ∈ r, s.name = "main" ∧ OnlyRev s.tables revT :=
+  sqliteClean_iff r revT hn
+
+theorem gate_bound (s : Sch) (revS revT : String) :
+    boundClean s revS revT = true ↔ s.tables = [] ∨ ((revS = "" ∨ s.name = revS) ∧ s.tables = [revT]) :=
+  boundClean_iff s revS revT
+
+/-- **first_run_refuses_user_table**: a database holding any table that is not the revision table - or, for
+a connection that manages the whole server, any schema that is not the revision schema (PostgreSQL: nor the
+empty `public`) - is refused on the first run unless `--allow-dirty` or `--baseline` is given: whatever the
+directory holds, nothing is pending and nothing is written. -/
+theorem first_run_refuses_user_table (cfg : Cfg) (all : List MFile) (r : List Sch) (revS revT : String)
+    (hn : (r.map (·.name)).Nodup) (hd : cfg.allowDirty = false) (hb : cfg.baseline = "")
+    (hgate : cfg.clean = mysqlRealmClean r revS revT ∨ cfg.clean = pgRealmClean r revS revT)
+    (s : Sch) (hs : s ∈ r) (t : String) (ht : t ∈ s.tables) (huser : t ≠ revT ∨ s.name ≠ revS) :
+    (pending cfg all []).out = .error .notClean ∧ (pending cfg all []).baselineWrite = none := by
+  apply dirty_requires_flag cfg all _ hd hb
+  rcases hgate with hg | hg
+  · rw [hg]
+    cases hc : mysqlRealmClean r revS revT with
+    | false => rfl
+    | true =>
+      exfalso
+      have := (gate_mysql r revS revT hn).mp hc s hs
+      rcases this with ⟨hname, hrev | hrev⟩
+      · rw [hrev] at ht; simp at ht
+      · rw [hrev] at ht; simp at ht
+        rcases huser with h | h
+        · exact h ht
+        · exact h hname
+  · rw [hg]
+    cases hc : pgRealmClean r revS revT with
+    | false => rfl
+    | true =>
+      exfalso
+      have := (gate_postgres r revS revT).mp hc s hs
+      rcases this with ⟨hemp, _⟩ | ⟨hname, hrev⟩
+      · rw [hemp] at ht; simp at ht
+      · rw [hrev] at ht; simp at ht
+        rcases huser with h | h
+        · exact h ht
+        · exact h hname
+
+/-- **first_run_refuses_extra_schema_mysql**: MySQL, whole-server connection: a second database - also one
+without a single table - is something the directory did not create: refused. -/
+theorem first_run_refuses_extra_schema_mysql (cfg : Cfg) (all : List MFile) (r : List Sch) (revS revT : String)
+    (hn : (r.map (·.name)).Nodup) (hd : cfg.allowDirty = false) (hb : cfg.baseline = "")
+    (hgate : cfg.clean = mysqlRealmClean r revS revT) (s : Sch) (hs : s ∈ r) (hname : s.name ≠ revS) :
+    (pending cfg all []).out = .error .notClean := by
+  apply (dirty_requires_flag cfg all _ hd hb).1
+  rw [hgate]
+  cases hc : mysqlRealmClean r revS revT with
+  | false => rfl
+  | true => exact absurd ((gate_mysql r revS revT hn).mp hc s hs).1 hname
+
+/-- premises met, and the decisions on small servers (the cases of the correspondence grid). -/
+example : mysqlRealmClean [⟨"app", []⟩] "atlas_schema_revisions" "atlas_schema_revisions" = false ∧
+    mysqlRealmClean [⟨"atlas_schema_revisions", ["atlas_schema_revisions"]⟩] "atlas_schema_revisions" "atlas_schema_revisions" = true ∧
+    mysqlRealmClean [⟨"app", []⟩, ⟨"atlas_schema_revisions", []⟩] "atlas_schema_revisions" "atlas_schema_revisions" = false ∧
+    pgRealmClean [⟨"public", []⟩, ⟨"app", []⟩] "atlas_schema_revisions" "atlas_schema_revisions" = false ∧
+    pgRealmClean [⟨"public", []⟩, ⟨"atlas_schema_revisions", ["atlas_schema_revisions"]⟩] "atlas_schema_revisions" "atlas_schema_revisions" = true ∧
+    pgRealmClean [⟨"public", ["users"]⟩] "atlas_schema_revisions" "atlas_schema_revisions" = false ∧
+    boundClean ⟨"app", ["atlas_schema_revisions"]⟩ "" "atlas_schema_revisions" = true ∧
+    boundClean ⟨"app", ["users"]⟩ "" "atlas_schema_revisions" = false := by decide
+
+end Gate
 
 /-- **first_run_from_last_checkpoint_only**: a first run (clean database or allow-dirty, no baseline)
 starts at the latest checkpoint, and only it: the result is the directory from the last checkpoint
